@@ -119,6 +119,8 @@ Record meter_write := MeterWrite {
 
 Definition up4_add_slice_info (slice_id tc : N) (s : slice_info) : list meter_write :=
   let '(mbr, burst) := if s_dl s <? s_ul s then (s_ul s, s_ulb s) else (s_dl s, s_dlb s) in
+  (* P4Runtime carries the burst as int64: clamped to math.MaxInt64 *)
+  let burst := if max_int64 <? burst then max_int64 else burst in
   match get_slice_tc_meter_index slice_id tc with
   | None => []                                                  (* error returned, logged by the handler *)
   | Some cell =>
@@ -164,6 +166,44 @@ Definition serve (dp : datapath) (meth : string) (b : body) : result :=
     end
   else Result [StatusMethodNotAllowed] [] None.
 
+(* ---------------------------------------------------------------- the handler over a history *)
+(* One ConfigHandler + upf serve many requests; what survives a request inside the agent is
+   upf.sliceInfo.  upf.addSliceInfo is
+       u.sliceInfo = sliceInfo; return u.AddSliceInfo(sliceInfo)
+   the previous value is overwritten and never read, and the datapath's answer (accepted, refused,
+   failed) is only logged.  The state is threaded explicitly so that the theorems can say so. *)
+Definition state := option slice_info.
+
+Definition upf_add_slice_info (st : state) (dp : datapath) (s : slice_info) : state * list write :=
+  (Some s, add_slice_info dp s).
+
+Definition serve_st (st : state) (dp : datapath) (meth : string) (b : body) : result * state :=
+  if accepts meth then
+    match b with
+    | Unreadable => (Result [StatusBadRequest] [] None, st)
+    | Malformed => (Result [StatusBadRequest] [] None, st)
+    | Decoded d =>
+        let s := slice_info_of d in
+        let '(st', ws) := upf_add_slice_info st dp s in
+        (Result [StatusCreated] ws (Some s), st')
+    end
+  else (Result [StatusMethodNotAllowed] [] None, st).
+
+Record request := Req { q_meth : string; q_body : body }.
+
+Fixpoint run (st : state) (dp : datapath) (reqs : list request) : list result * state :=
+  match reqs with
+  | [] => ([], st)
+  | q :: rest =>
+      let '(r, st') := serve_st st dp (q_meth q) (q_body q) in
+      let '(rs, st'') := run st' dp rest in
+      (r :: rs, st'')
+  end.
+
+(* what the slice meter holds after a history: the writes of the last request that sent any *)
+Definition meter_after (m : list write) (rs : list result) : list write :=
+  fold_left (fun m r => match r_writes r with [] => m | w => w end) rs m.
+
 (* ---------------------------------------------------------------- specification-side vocabulary *)
 (* the multiplier the property text assigns to a unit string; unstated (or unrecognised) = Mbps *)
 Definition unit_of (u : string) : N :=
@@ -185,7 +225,8 @@ Definition bess_meter_spec (cu cd ulb dlb : N) : list write :=
     WBess (BessCmd "sliceMeter" "add"
        (QosAdd 0 1 (cd / 8) 1 (if dlb =? 0 then 48448 else dlb) 0 50 [0; 1])) ].
 
-(* what the UP4 slice/TC meter cell must be told: the larger rate with the burst of that side *)
+(* what the UP4 slice/TC meter cell must be told: the larger rate with the burst of that side,
+   the burst saturated at 2^63-1 (the largest value P4Runtime's int64 pburst can carry) *)
 Definition up4_meter_spec (slice_id tc : N) (cu cd ulb dlb : N) : list write :=
   [ WUp4 (MeterWrite 2 336833095 (Z.of_N (4 * slice_id + tc)) 0 0
-                     (Z.of_N (N.max cu cd)) (Z.of_N (if cd <? cu then ulb else dlb))) ].
+                     (Z.of_N (N.max cu cd)) (Z.of_N (N.min (if cd <? cu then ulb else dlb) (2 ^ 63 - 1)))) ].
